@@ -359,6 +359,29 @@ pub fn many_members_module() -> ZooModule {
     }
 }
 
+/// C03 beyond the exhaustively enumerated sizes: SEQUENCE / SET types with 63..130 OPTIONAL/DEFAULT root
+/// components and extensible SEQUENCEs with 63..70 extension additions (flag runs around the 64 bit mark;
+/// the presence patterns of these are sampled, not enumerated)
+pub fn c03_wide_module() -> ZooModule {
+    let ty = |i: usize| match i % 3 {
+        0 => Type::int(0, 255),
+        1 => Type::Boolean,
+        _ => Type::int(-8, 7),
+    };
+    let pres = |i: usize| if i % 7 == 3 && i % 3 != 1 { Presence::Default(DefaultVal { lit: Lit::Int(5), via: None }) } else { Presence::Optional };
+    let mut defs = Vec::new();
+    for n in [63usize, 64, 65, 70, 130] {
+        defs.push(Def { name: format!("W{n}"), tag: None, ty: Type::Sequence(Fields { comps: (0..n).map(|i| comp(&format!("m{i}"), ty(i), pres(i))).collect(), root: None }) });
+    }
+    defs.push(Def { name: "Wset65".into(), tag: None, ty: Type::Set(Fields { comps: (0..65).map(|i| comp(&format!("m{i}"), ty(i), pres(i))).collect(), root: None }) });
+    for n in [63usize, 64, 65, 70] {
+        let mut comps = vec![comp("r0", Type::int(0, 255), Presence::Mandatory)];
+        comps.extend((0..n).map(|i| comp(&format!("x{i}"), ty(i), Presence::Optional)));
+        defs.push(Def { name: format!("X{n}"), tag: None, ty: Type::Sequence(Fields { comps, root: Some(1) }) });
+    }
+    ZooModule { module: Module::simple("C03Wide", defs), conformance: true, group: "c03wide".into(), meta: serde_json::Value::Null }
+}
+
 /// families added to the frozen fixed zoo after it was frozen (`zoogen <dir> append-extra`)
 pub fn extra_modules() -> Vec<ZooModule> {
     let mut out = Vec::new();
@@ -370,6 +393,7 @@ pub fn extra_modules() -> Vec<ZooModule> {
     out.push(name_containment_module());
     out.extend(c03_nested_shapes());
     out.push(many_members_module());
+    out.push(c03_wide_module());
     out
 }
 
